@@ -3,8 +3,10 @@
    `reachable V C s`: s is reached from the empty directory by any finite sequence of steps
    of any number of scheduler processes (start, kill, acquire, write, launch, job end,
    release, delivery of any pending filesystem event in any order, watcher threads firing),
-   for the literal code of the pinned commit (V = VL), the repaired code (V = VF) or any
-   mixture: the capacity theorems do not depend on the C09 repairs.                     *)
+   including kills between open() and write() of a token file.  V ranges over every variant
+   whose watcher thread tests and deletes under the job lock (`v_fire V = true`, fixes/C08-1):
+   the capacity theorems do not depend on the C09 repairs, but they are FALSE for the pinned
+   watcher thread (C08_stale_watcher_refuted).                                            *)
 From Coq Require Import ZArith List.
 From XV Require Import model.TokenFS proofs.TokenFS_lemmas.
 Import ListNotations.
@@ -14,7 +16,7 @@ Open Scope Z_scope.
    is being created counted at its job's request (held_sum) and for the written files
    alone (written_sum)                                                                   *)
 Theorem C08_capacity_disk : forall V C s,
-  (forall j, 0 <= c_cnt C j) -> 0 <= c_total C -> reachable V C s ->
+  (forall j, 0 <= c_cnt C j) -> 0 <= c_total C -> v_fire V = true -> reachable V C s ->
   held_sum C s <= c_total C /\ written_sum C s <= c_total C.
 Proof. exact capacity_disk. Qed.
 Print Assumptions C08_capacity_disk.
@@ -22,23 +24,23 @@ Print Assumptions C08_capacity_disk.
 (* a job between the acquisition of its token and the end of its process has its token
    file, with its full request                                                           *)
 Theorem C08_running_has_file : forall V C s j,
-  reachable V C s -> j_ph (s_jobs s j) = Holding \/ j_ph (s_jobs s j) = Running ->
+  v_fire V = true -> reachable V C s -> j_ph (s_jobs s j) = Holding \/ j_ph (s_jobs s j) = Running ->
   s_disk s j = Written (c_cnt C j).
 Proof. exact running_has_file. Qed.
 Print Assumptions C08_running_has_file.
 
 (* hence the jobs whose process is alive together hold at most the total *)
 Theorem C08_running_sum : forall V C s,
-  (forall j, 0 <= c_cnt C j) -> 0 <= c_total C -> reachable V C s ->
+  (forall j, 0 <= c_cnt C j) -> 0 <= c_total C -> v_fire V = true -> reachable V C s ->
   sumf (c_n C) (fun j => match j_ph (s_jobs s j) with Running => c_cnt C j | _ => 0 end) <= c_total C.
 Proof. exact running_sum. Qed.
 Print Assumptions C08_running_sum.
 
-(* TokenFile.watch deletes a token file only when the job's lock is free and there is no pid
-   file or the process it names is gone; in every reachable state this means the job is not
-   between acquire and exit ...                                                          *)
+(* [the first two conjuncts read back the enabling condition of Fire (sanity); the content is
+   the third: in every reachable state that condition implies that the job is not between
+   acquire and exit]                                                                      *)
 Theorem C08_watcher_not_early : forall V C s p n s' r,
-  reachable V C s -> step V C s (Fire p n) = Some (s', r) ->
+  v_fire V = true -> reachable V C s -> step V C s (Fire p n) = Some (s', r) ->
   j_lock (s_jobs s n) = false /\ (j_pid (s_jobs s n) = false \/ j_ph (s_jobs s n) <> Running) /\
   (j_ph (s_jobs s n) = Idle \/ j_ph (s_jobs s n) = Ended \/ j_ph (s_jobs s n) = Done).
 Proof. exact watcher_not_early. Qed.
@@ -47,7 +49,7 @@ Print Assumptions C08_watcher_not_early.
 (* ... because the scheduler holds the job lock from before the token is taken until the job
    process is started and its pid file written (Scheduler.aio_start l.683-735)            *)
 Theorem C08_start_window_locked : forall V C s j,
-  reachable V C s ->
+  v_fire V = true -> reachable V C s ->
   (j_ph (s_jobs s j) = Creating \/ j_ph (s_jobs s j) = Holding -> j_lock (s_jobs s j) = true) /\
   (j_ph (s_jobs s j) = Running -> j_pid (s_jobs s j) = true).
 Proof. exact start_window_locked. Qed.
@@ -59,3 +61,13 @@ Theorem C08_capacity_inproc : forall total n cnt t,
   0 <= pt_avail t /\ pt_avail t + pheld_sum n cnt t = total.
 Proof. exact capacity_inproc. Qed.
 Print Assumptions C08_capacity_inproc.
+
+(* the pinned watcher thread (delete outside the job lock, by name): after an aborted start the
+   thread of another process deletes the token file of the next start of the same job, which
+   then runs uncounted: two running jobs hold 2 > total 1 (vm_compute witness)              *)
+Theorem C08_stale_watcher_refuted : exists C tr s,
+  run V_no_fire C init tr = Some s /\
+  j_ph (s_jobs s 0) = Running /\ s_disk s 0 = Absent /\ j_ph (s_jobs s 1) = Running /\
+  c_total C < sumf (c_n C) (fun j => match j_ph (s_jobs s j) with Running => c_cnt C j | _ => 0 end).
+Proof. exact stale_watcher_refuted. Qed.
+Print Assumptions C08_stale_watcher_refuted.
